@@ -14,8 +14,21 @@ From KdV Require Import Base.Wrap64 Xlat.Step.
 Import ListNotations.
 Local Open Scope N_scope.
 
+(** pf_max_fields (step.c, fixes/90-pgt-too-many-fields.patch): the number of
+    paging levels the architecture defines plus one *)
+Definition pf_max_fields (f : ptefmt) : nat :=
+  match f with
+  | PTE_ARM | PTE_IA32 => 3
+  | PTE_IA32_PAE => 4
+  | PTE_PPC64_LINUX_RPN30 => 5
+  | PTE_AARCH64 | PTE_AARCH64_LPA | PTE_AARCH64_LPA2 | PTE_RISCV64 | PTE_S390X | PTE_X86_64 => 6
+  | _ => 8
+  end%nat.
+
+(** first_step_pgt with the check of the repaired tree in front *)
 Definition step_first (ras : aspace) (root : N) (pf : pform) (addr : N) : status * step :=
-  first_step_pgt ras root pf (init_step addr) addr.
+  if (pf_max_fields (pte_format pf) <? length (fieldsz pf))%nat then (NOTIMPL, init_step addr)
+  else first_step_pgt ras root pf (init_step addr) addr.
 
 Definition step_next (tgt : aspace) (mask : N) (pf : pform) (s : step) (raw : N) : status * step :=
   next_step_pgt (fun _ _ => RdOk raw) tgt mask pf s.
